@@ -38,7 +38,12 @@ func entries(s string) []string {
 	}
 	var out []string
 	for _, e := range strings.Split(s, ",") {
-		out = append(out, unesc(strings.SplitN(e, "~", 2)[0]))
+		raw := strings.SplitN(e, "~", 2)[0]
+		if raw == "%00" { // the empty entry (a dangling "- " in the YAML list)
+			out = append(out, "")
+			continue
+		}
+		out = append(out, unesc(raw))
 	}
 	return out
 }
